@@ -134,7 +134,7 @@ func exporterDigest(a *Node, ctx sdk.Context, store string) string {
 }
 
 func (w *World) initFrom(appState []byte, height int64) (*Node, string) {
-	n := &Node{Idx: 100, Cfg: DefaultRefCfg(), DB: dbm.NewMemDB()}
+	n := &Node{Idx: 100, Cfg: DefaultRefCfg(), DB: dbm.NewMemDB(), AppOpts: appOptsOf(&w.T.Knobs)}
 	n.Open()
 	req := abci.RequestInitChain{Time: w.Now, ChainId: ChainID, ConsensusParams: InitChainReq(nil).ConsensusParams, Validators: []abci.ValidatorUpdate{}, AppStateBytes: appState, InitialHeight: height}
 	p, _ := safely(func() { n.App.InitChain(req) })
@@ -160,7 +160,7 @@ func (w *World) takeFork() {
 		// `und export` is a command of a stopped node: a fresh process opens the database and
 		// exports the last committed state. (Exporting from the running application object would
 		// read its check state, i.e. include whatever the mempool connection did since the commit.)
-		exp := &Node{Idx: 101, Cfg: DefaultRefCfg(), DB: a.DB}
+		exp := &Node{Idx: 101, Cfg: DefaultRefCfg(), DB: a.DB, AppOpts: appOptsOf(&w.T.Knobs)}
 		exp.Open()
 		e, err := exp.App.ExportAppStateAndValidators(false, nil, nil)
 		if err != nil {
@@ -378,7 +378,7 @@ func (w *World) importAndCheckCounters() {
 	var raw []byte
 	var height int64
 	if p, _ := safely(func() {
-		exp := &Node{Idx: 101, Cfg: DefaultRefCfg(), DB: w.Ref.DB}
+		exp := &Node{Idx: 101, Cfg: DefaultRefCfg(), DB: w.Ref.DB, AppOpts: appOptsOf(&w.T.Knobs)}
 		exp.Open()
 		e, err := exp.App.ExportAppStateAndValidators(false, nil, nil)
 		if err != nil {
